@@ -971,6 +971,17 @@ theorem heat_legend_line {α : Type} {A : Arith α} {Dom : Int → Prop} {Unit :
       (∀ j x, j ≠ 0 → vt.lines[j]? = some x → vt'.lines[j]? = some x) :=
   heat_legend_line_u U env h vt ho mn mx hmn hmx
 
+/-- THE LEGEND AFTER A WHOLE RENDER: `Heatmap.WriteTable` on any aggregated state (as in `heat_render_ok_any`) leaves on line 0 the
+legend of the range the cells of THIS render are coloured with (`UpdateMinMaxFromData`: the data range, fixed ends kept) – the
+header, the rows and the rows note never touch it.  `IsLegendLine` is the description of `heat_legend_line`: indentation,
+then per key of `ScaleKeys(6, min, max)` one heat cell of `Scale(key, min, max)`, a blank, `Formatter(key, min, max)`. -/
+theorem heat_render_legend {α : Type} {A : Arith α} {Dom : Int → Prop} {Unit : α → Prop} {le : α → α → Prop} (U : UnitLaws A Dom Unit le)
+    (env : Env) (h : Heatmap) (vt : VirtualTerm) (ho : vt.closed = false) (hrc : 0 ≤ h.rowCount) (hcc : 0 ≤ h.colCount)
+    (rkeys ckeys : List Bytes) (c : Cells) (hc : DomCells Dom c) (hmn : Dom h.minVal) (hmx : Dom h.maxVal) :
+    ∃ h' vt' line, h.writeTable A env vt rkeys ckeys c = .ok (h', vt') ∧ vt'.lines[0]? = some line ∧
+      IsLegendLine A env h (h.range c).1 (h.range c).2 line :=
+  heat_writeTable_legend_u U env h vt ho hrc hcc rkeys ckeys c hc hmn hmx
+
 /-- THE LINEAR LEGEND (the default scale) over exact rationals, `min < max`: the keys are STRICTLY INCREASING, the first is
 `min` and the last is `max`, so every key lies in the range the heatmap is drawn with – coldest cell first, hottest last -/
 theorem legend_linear_exact (L2 L10 : Rat → Rat) (mn mx : Int) (hlt : mn < mx) :
